@@ -169,5 +169,11 @@ class SpooledTextFile(_io.TextIOBase):
         file = self._file
         self._path = self._get_unused_path()
         newfile = self._file = self._path.open(mode='x+')
-        newfile.write(file.getvalue())
-        newfile.seek(file.tell(), 0)
+        # The position of a StringIO is a number of characters, which is not
+        # a valid position in a text file on disk (non-ASCII characters).
+        contents = file.getvalue()
+        pos = file.tell()
+        newfile.write(contents[:pos])
+        pos_in_newfile = newfile.tell()
+        newfile.write(contents[pos:])
+        newfile.seek(pos_in_newfile, 0)
